@@ -546,7 +546,7 @@ def run(chk: core.Check):
             chk.branch("one-mode")
             handle(chk, gen_circuit_spec(rng, 1, rng.randint(1, 3), engine == "MPS"), n, engine, [])
     # --- MPS transition tensors against the closed formulas of the model (every cell within the photon number)
-    for i in range(chk.pick(9, 30)):
+    for i in range(chk.pick(9, 21)):
         kind = ("cayley", "leaf", "free")[i % 3]
         u = gen_block2(rng, kind)
         nms = chk.pick([2, 3, 4], [2, 3, 4, 5, 6])
@@ -567,7 +567,7 @@ def run(chk: core.Check):
         for k_, sig_, what_, rp_ in res:
             chk.fail(k_, sig_, what_, rp_)
     # --- Stepper component by component: every intermediate vector against the restricted-mode model
-    for i in range(chk.pick(10, 30)):
+    for i in range(chk.pick(10, 20)):
         m, n = rng.choice(chk.pick([(2, 2), (3, 2), (3, 3), (4, 2), (4, 3), (5, 2)],
                                    [(2, 3), (3, 2), (3, 3), (4, 2), (4, 3), (5, 2), (5, 3), (6, 2), (3, 4)]))
         spec = gen_circuit_spec(rng, m, rng.randint(2, chk.pick(6, 9)), False)
